@@ -10,6 +10,7 @@ import (
 	"encoding/json"
 	"fmt"
 	"sort"
+	"strings"
 
 	"github.com/advancedclimatesystems/gonnx/ops"
 	"github.com/advancedclimatesystems/gonnx/ops/opset13"
@@ -80,6 +81,13 @@ func pick(items []reuseItem) []reuseItem {
 func newReusePass() *reusePass { return &reusePass{groups: map[string][]reuseItem{}} }
 
 func (r *reusePass) add(c *Case, text string) {
+	if c.Kind == "gate" {
+		// input gates: every input list of an operator goes through the gate of ONE instance as well
+		h := sha1.Sum([]byte(text))
+		key := "gate|" + c.Op
+		r.groups[key] = append(r.groups[key], reuseItem{c, text, string(h[:])})
+		return
+	}
 	if c.Kind != "op" || c.Allowed.Must == "no_crash" {
 		return
 	}
@@ -113,6 +121,23 @@ func (r *reusePass) run() []reuseVerdict {
 	}
 	sort.Strings(keys)
 	for _, k := range keys {
+		if strings.HasPrefix(k, "gate|") {
+			items := r.groups[k]
+			sort.Slice(items, func(i, j int) bool { return items[i].h < items[j].h })
+			op, err := opset13.GetOperator(items[0].c.Op)
+			if err != nil || len(items) < 2 {
+				continue
+			}
+			for i, it := range items {
+				v, short := gateOnce(op, it.c)
+				if v == "pass" {
+					out = append(out, reuseVerdict{it.c.Prop, it.text, "pass"})
+				} else {
+					out = append(out, reuseVerdict{it.c.Prop, it.text, fmt.Sprintf("mode=reuse (input list %d through the gate of one %s instance) %s | observed: %s", i+1, it.c.Op, v, short)})
+				}
+			}
+			continue
+		}
 		items := pick(r.groups[k])
 		if len(items) < 2 {
 			continue
